@@ -95,30 +95,40 @@ func ruleEpcCoverage(c *Ctx) {
 	_, ctor := c.P.mustFunc("eth2/beacon/common", "NewEpochsContext")
 	cw := map[string]bool{}
 	fresh := map[types.Object]bool{}
+	// the context value under construction: a literal or new(EpochsContext), filled in the literal and/or field by field,
+	// and by the methods called on it
+	for _, b := range structBuilds(info, ctor.Body, "EpochsContext") {
+		for f := range b.fields {
+			cw[f] = true
+		}
+	}
 	ast.Inspect(ctor.Body, func(n ast.Node) bool {
-		switch x := n.(type) {
-		case *ast.AssignStmt:
-			for i, r := range x.Rhs {
-				r = ast.Unparen(r)
-				if u, ok := r.(*ast.UnaryExpr); ok {
+		if as, ok := n.(*ast.AssignStmt); ok && len(as.Lhs) == len(as.Rhs) {
+			for i, l := range as.Lhs {
+				id, ok := l.(*ast.Ident)
+				if !ok {
+					continue
+				}
+				r := ast.Unparen(as.Rhs[i])
+				if u, ok := r.(*ast.UnaryExpr); ok && u.Op == token.AND {
 					r = ast.Unparen(u.X)
 				}
-				if cl, ok := r.(*ast.CompositeLit); ok {
-					if nt := namedOf(info.TypeOf(cl)); nt != nil && nt.Obj().Name() == "EpochsContext" {
-						for _, el := range cl.Elts {
-							if kv, ok := el.(*ast.KeyValueExpr); ok {
-								cw[kv.Key.(*ast.Ident).Name] = true
-							}
-						}
-						if i < len(x.Lhs) {
-							if id, ok := x.Lhs[i].(*ast.Ident); ok {
-								fresh[info.Defs[id]] = true
-							}
-						}
+				isNew := false
+				if call, ok := r.(*ast.CallExpr); ok && len(call.Args) == 1 {
+					if fid, ok := call.Fun.(*ast.Ident); ok && fid.Name == "new" {
+						r, isNew = call.Args[0], true
 					}
 				}
+				_, isLit := r.(*ast.CompositeLit)
+				if nt := namedOf(info.TypeOf(r)); (isLit || isNew) && nt != nil && nt.Obj().Name() == "EpochsContext" {
+					fresh[info.ObjectOf(id)] = true
+				}
 			}
-		case *ast.CallExpr:
+		}
+		return true
+	})
+	ast.Inspect(ctor.Body, func(n ast.Node) bool {
+		if x, ok := n.(*ast.CallExpr); ok {
 			if sel, ok := x.Fun.(*ast.SelectorExpr); ok {
 				if id, ok := ast.Unparen(sel.X).(*ast.Ident); ok && fresh[info.Uses[id]] {
 					for f := range writes(sel.Sel.Name, map[string]bool{}) {
@@ -243,6 +253,12 @@ func ruleEpcShared(c *Ctx) {
 				key := fn + ":" + nt.Obj().Name() + "." + sel.Sel.Name
 				id, _ := ast.Unparen(sel.X).(*ast.Ident)
 				if id != nil && fresh[info.Uses[id]] {
+					// the memory a slice field of the new structure points to is new as well: not (a reslice of) a slice
+					// the caller handed in, nor of another structure's field
+					if from := borrowedBacking(c.P, pk, fd, sel); from != "" {
+						c.bad(key, sel.Pos(), "the new %s takes the memory of its %s from %s: a structure that is shared between an EpochsContext and its clones must own its arrays, or whoever still holds the old one sees it overwritten", nt.Obj().Name(), sel.Sel.Name, from)
+						return
+					}
 					c.ok(key, sel.Pos(), "written while being constructed in this function")
 				} else {
 					c.bad(key, sel.Pos(), "%s of a %s that was not built in this function: the structure is shared between an EpochsContext and its clones (Clone is shallow), so the write shows through in sibling chain forks", what, nt.Obj().Name())
@@ -639,7 +655,30 @@ func ruleExitQueueReset(c *Ctx) {
 				}
 				switch st := k.(type) {
 				case *ast.AssignStmt:
-					if len(st.Lhs) != 1 || len(st.Rhs) != 1 {
+					if len(st.Lhs) != len(st.Rhs) {
+						return true
+					}
+					if len(st.Lhs) > 1 {
+						// a, b = x, 1 : each pair on its own (same statement)
+						if st.Tok != token.ASSIGN {
+							return true
+						}
+						for i := range st.Lhs {
+							m := localOf(st.Lhs[i])
+							if m == nil {
+								continue
+							}
+							px, ok := exprPoly(info, st.Rhs[i], nil, nil, 0)
+							if !ok {
+								continue
+							}
+							for _, f := range pathFactsAt(parents, st) {
+								if f.be.Pos() >= body.Pos() && says(f, px, polyAtom(m.Name()), token.GTR) {
+									raises = append(raises, raise{m, px, st, false})
+									break
+								}
+							}
+						}
 						return true
 					}
 					m := localOf(st.Lhs[0])
@@ -722,11 +761,22 @@ func ruleExitQueueReset(c *Ctx) {
 						continue
 					}
 					// the count stands under x == M for the same x
-					isEq := false
+					isEq, le, ge := false, false, false
 					for _, f := range pathFactsAt(parents, ct.stmt) {
-						if says(f, r.x, polyAtom(r.m.Name()), token.EQL) {
+						pm := polyAtom(r.m.Name())
+						if says(f, r.x, pm, token.EQL) {
 							isEq = true
 						}
+						// not above and not below
+						if says(f, r.x, pm, token.LEQ) {
+							le = true
+						}
+						if says(f, r.x, pm, token.GEQ) {
+							ge = true
+						}
+					}
+					if le && ge {
+						isEq = true
 					}
 					if !isEq {
 						continue
@@ -742,8 +792,15 @@ func ruleExitQueueReset(c *Ctx) {
 					resetVal := int64(-1)
 					if blk, ok := parents[r.stmt].(*ast.BlockStmt); ok && !r.bare {
 						for _, st := range blk.List {
-							if as, ok := st.(*ast.AssignStmt); ok && len(as.Lhs) == 1 && len(as.Rhs) == 1 && localOf(as.Lhs[0]) == ct.c {
-								if tv := info.Types[as.Rhs[0]]; tv.Value != nil {
+							as, ok := st.(*ast.AssignStmt)
+							if !ok || len(as.Lhs) != len(as.Rhs) {
+								continue
+							}
+							for i := range as.Lhs {
+								if localOf(as.Lhs[i]) != ct.c {
+									continue
+								}
+								if tv := info.Types[as.Rhs[i]]; tv.Value != nil {
 									if v, ok := constantInt(tv); ok {
 										resetVal = v
 									}
@@ -948,4 +1005,115 @@ func reachesCallNamed(p *Prog, pk *packages.Package, fd *ast.FuncDecl, call *ast
 		}
 	}
 	return false
+}
+
+
+// borrowedBacking: sel (a slice-typed field of a structure under construction) is assigned, somewhere in fd, a value
+// whose backing array is not new: a field of another value, possibly resliced, put in a local first, or handed in
+// through a slice parameter (then read at every call site of the function in the module, three levels up). Returns a
+// description of where the memory comes from, "" if every assigned value is new memory (make, append to nil, a literal,
+// the result of a call, nil).
+func borrowedBacking(p *Prog, pk *packages.Package, fd *ast.FuncDecl, sel *ast.SelectorExpr) string {
+	info := pk.TypesInfo
+	if _, isSlice := info.TypeOf(sel).Underlying().(*types.Slice); !isSlice {
+		return ""
+	}
+	out := ""
+	ast.Inspect(fd.Body, func(n ast.Node) bool {
+		as, ok := n.(*ast.AssignStmt)
+		if !ok || out != "" {
+			return true
+		}
+		for i, l := range as.Lhs {
+			ls, ok := ast.Unparen(l).(*ast.SelectorExpr)
+			if !ok || ls.Sel.Name != sel.Sel.Name || types.ExprString(ls.X) != types.ExprString(sel.X) || i >= len(as.Rhs) || len(as.Lhs) != len(as.Rhs) {
+				continue
+			}
+			if w := backingOrigin(p, pk, fd, as.Rhs[i], types.ExprString(sel.X), 0); w != "" {
+				out = w
+			}
+		}
+		return true
+	})
+	return out
+}
+
+func backingOrigin(p *Prog, pk *packages.Package, fd *ast.FuncDecl, e ast.Expr, self string, depth int) string {
+	info := pk.TypesInfo
+	defs := reachingDefs(info, fd.Body)
+	var origin func(e ast.Expr, d int) string
+	origin = func(e ast.Expr, d int) string {
+		e = ast.Unparen(e)
+		for {
+			if sl, ok := e.(*ast.SliceExpr); ok {
+				e = ast.Unparen(sl.X)
+				continue
+			}
+			break
+		}
+		switch x := e.(type) {
+		case *ast.Ident:
+			o := info.ObjectOf(x)
+			if o == nil {
+				return ""
+			}
+			// a parameter: what the callers hand in
+			k := 0
+			for _, f := range fd.Type.Params.List {
+				for _, nm := range f.Names {
+					if info.Defs[nm] == o {
+						if depth >= 3 {
+							return ""
+						}
+						self, _ := info.Defs[fd.Name].(*types.Func)
+						found := ""
+						p.funcDecls(func(pk2 *packages.Package, fd2 *ast.FuncDecl) {
+							if fd2.Body == nil || found != "" {
+								return
+							}
+							ast.Inspect(fd2.Body, func(m ast.Node) bool {
+								call, ok := m.(*ast.CallExpr)
+								if !ok || found != "" {
+									return true
+								}
+								if g := calleeFunc(pk2.TypesInfo, call); g != nil && g == self && k < len(call.Args) {
+									if w := backingOrigin(p, pk2, fd2, call.Args[k], "", depth+1); w != "" {
+										found = w + " (handed in by " + funcName(fd2) + ")"
+									}
+								}
+								return true
+							})
+						})
+						return found
+					}
+					k++
+				}
+			}
+			if d > 3 {
+				return ""
+			}
+			for _, df := range defs.defs[o] {
+				if df.def.rhs != nil {
+					if w := origin(df.def.rhs, d+1); w != "" {
+						return w
+					}
+				}
+			}
+		case *ast.SelectorExpr:
+			if s, ok := info.Selections[x]; ok && s.Kind() == types.FieldVal {
+				if _, isSlice := info.TypeOf(x).Underlying().(*types.Slice); isSlice && (self == "" || types.ExprString(x.X) != self) {
+					return "the field " + types.ExprString(x)
+				}
+			}
+		case *ast.CallExpr:
+			// append(buf[:0], …) keeps buf's array
+			if id, ok := x.Fun.(*ast.Ident); ok && id.Name == "append" && len(x.Args) > 0 {
+				if _, isB := info.ObjectOf(id).(*types.Builtin); isB {
+					return origin(x.Args[0], d)
+				}
+			}
+		}
+		return ""
+	}
+	return origin(e, 0)
 }
